@@ -394,6 +394,16 @@ def dot_rules(ctx, flavours):
                 why.append('%d node statements per member (expected 1)' % len(member_emits))
             if len(edge_emits) != 1:
                 why.append('%d edge statements per edge (expected 1)' % len(edge_emits))
+            # ... for EVERY member / iterated edge: from the Some edge of the loop's next() no way back to next() around the statement
+            from .core import outcome_edges as _oe_dot
+            for loops_, emits_, what_ in ((member_loops, member_emits, 'member'), (edge_loops, edge_emits, 'iterated edge')):
+                for nbi_ in loops_:
+                    se_, ne_ = _oe_dot(F, b, nbi_)
+                    mine = [e_ for e_ in emits_ if nbi_ in nest(e_)]
+                    if se_ is None or not mine:
+                        continue
+                    if se_[1] not in mine and cfg.path_exists(se_[1], nbi_, avoiding=set(mine)):
+                        why.append('some %ss get no statement (a path from next() back to next() avoids the write)' % what_)
             # loops run to exhaustion
             for h, body in loops.items():
                 for x in body:
